@@ -42,6 +42,23 @@ Fixpoint orun_partial (s : S) (xs : list X) : list Y * bool :=
   | x :: r => match step s x with
               | Some (s', y) => let '(ys, p) := orun_partial s' r in (y :: ys, p)
               | None => ([], true) end end.
+Lemma orun_oexec_snoc s xs x ys s1 s2 y :
+  orun s xs = Some ys -> oexec s xs = Some s1 -> step s1 x = Some (s2, y) ->
+  orun s (xs ++ [x]) = Some (ys ++ [y]) /\ oexec s (xs ++ [x]) = Some s2.
+Proof.
+  revert s ys; induction xs as [|a xs IH]; intros s ys H1 H2 H3.
+  - cbn [orun oexec app] in *. injection H1 as <-. injection H2 as <-. rewrite H3. split; reflexivity.
+  - cbn [orun oexec app] in *. destruct (step s a) as [[sa ya]|]; [|discriminate].
+    destruct (orun sa xs) as [yr|] eqn:Eo; [|discriminate]. injection H1 as <-.
+    destruct (IH sa yr Eo H2 H3) as [A B]. rewrite A, B. split; reflexivity.
+Qed.
+Lemma oexec_snoc s xs x s1 : oexec s xs = Some s1 ->
+  oexec s (xs ++ [x]) = match step s1 x with Some (s2, _) => Some s2 | None => None end.
+Proof.
+  revert s; induction xs as [|a xs IH]; intros s H.
+  - cbn [oexec app] in *. injection H as <-. destruct (step s x) as [[? ?]|]; reflexivity.
+  - cbn [oexec app] in *. destruct (step s a) as [[sa ya]|]; [|discriminate]. apply IH, H.
+Qed.
 End OMachine.
 
 Definition omap_outputs {Y} (o : option (list Y)) : option (list Y) := o.
